@@ -147,7 +147,7 @@ func replayWitness(repo, hdir string, names []string, wpath string, v *Violation
 	}()
 	select {
 	case r := <-done:
-		fmt.Printf("VF-REPLAY-RESULT: %s\n", r)
+		fmt.Printf("VF-REPLAY-RESULT: %s DIGEST[%s]\n", r, vfDigestString())
 	case <-time.After(20 * time.Second):
 		fmt.Printf("VF-REPLAY-RESULT: hang\n")
 	}
@@ -185,10 +185,18 @@ func replayWitness(repo, hdir string, names []string, wpath string, v *Violation
 	cmd.Run()
 	txt := out.String()
 	res := ""
+	digest := ""
 	for _, line := range strings.Split(txt, "\n") {
 		if i := strings.Index(line, "VF-REPLAY-RESULT: "); i >= 0 {
 			res = strings.TrimSpace(line[i+len("VF-REPLAY-RESULT: "):])
+			if j := strings.Index(res, " DIGEST["); j >= 0 {
+				digest = res[j+1:]
+				res = res[:j]
+			}
 		}
+	}
+	if v.Kind == "selftest" {
+		return "selftest", digest
 	}
 	if res == "" {
 		// a panic outside the harness goroutine, a fatal error or a build failure
